@@ -1,7 +1,8 @@
 #!/usr/bin/env python3
-"""Framework self-test (not a MANIFEST command): applies small semantic mutants to /repo
-one at a time (each still compiles), runs the named property's quick check, restores the
-tree, and prints a detection matrix. Usage: selftest_mutants.py [id ...]"""
+"""Framework self-test (not a MANIFEST command): applies small semantic mutants one at a
+time (each still compiles) to a SCRATCH copy of /repo (tools/scratch.sh; /repo itself and the
+committed evidence are never touched), runs the named property's quick check against the
+copy and prints a detection matrix. Usage: selftest_mutants.py [id ...]"""
 import subprocess, sys, time
 
 M = [
@@ -42,8 +43,9 @@ env = "GOFLAGS=-mod=mod GOPROXY=off GOSUMDB=off GOTOOLCHAIN=local"
 for mid, prop, path, old, new in M:
     if want and mid not in want:
         continue
-    sh("git -C /repo checkout -- .")
-    p = "/repo/" + path
+    sh("/verif/tools/scratch.sh new selftest")
+    REPO = "/var/tmp/verif-scratch/selftest/repo"
+    p = REPO + "/" + path
     s = open(p).read()
     if old not in s:
         print(f"{mid} {prop} SKIP (pattern not found in {path})")
@@ -54,16 +56,14 @@ for mid, prop, path, old, new in M:
         assert ep == path
         s = s.replace(eo, en, 1)
     open(p, "w").write(s)
-    b = sh(f"cd /repo && {env} go build ./... 2>&1 | head -3")
+    b = sh(f"cd {REPO} && {env} go build ./... 2>&1 | head -3")
     if b.stdout.strip():
         print(f"{mid} {prop} SKIP (does not compile: {b.stdout.strip()[:120]})")
-        sh("git -C /repo checkout -- .")
         continue
     t0 = time.time()
-    r = sh(f"cd /verif && timeout 1500 ./check {prop} quick")
+    r = sh(f"cd /verif && timeout 1500 tools/scratch.sh check selftest {prop} quick")
     viol = [l for l in r.stdout.split('\n') if l.startswith('VIOLATION')]
     inc = [l for l in r.stdout.split('\n') if l.startswith('INCONCLUSIVE')]
     verdict = "DETECTED" if r.returncode == 1 and viol else ("inconclusive" if r.returncode == 2 else "missed")
     print(f"{mid} {prop} {verdict} exit={r.returncode} {time.time()-t0:.0f}s {(viol or inc or [''])[0][:140]}", flush=True)
-    sh("git -C /repo checkout -- .")
-sh("git -C /repo checkout -- .")
+sh("/verif/tools/scratch.sh rm selftest")
